@@ -14,6 +14,7 @@ class Build:
 
   def __init__(self, spec):
     self.spec = spec
+    self.flavours = spec.get("flavours") or ["function"]
     self.log = []
     self.counters = {}
     self.fns = {}          # state index -> state function of this build
@@ -38,6 +39,23 @@ class Build:
           return return_status.UNHANDLED
         return return_status.HANDLED
       cb.__name__ = cb.__qualname__ = "vcb_%d_%s" % (i, key)
+      # callbacks need not be plain functions: partial objects and callable objects are callables
+      flavour = self.flavours[(i * 7 + len(key) + ord(key[-1])) % len(self.flavours)]
+      if flavour == "partial":
+        import functools
+
+        def with_extra(extra, chart, e):
+          return cb(chart, e)
+        p = functools.partial(with_extra, "x")
+        p.__name__ = cb.__name__
+        return p
+      if flavour == "object":
+        class Callable_:
+          def __call__(self_, chart, e):
+            return cb(chart, e)
+        o = Callable_()
+        o.__name__ = cb.__name__
+        return o
       return cb
     for i in range(spec["n"]):
       if spec["entry"][i]:
@@ -119,7 +137,8 @@ class C17(Prop):
   thorough_examples = 3000
   rule = ("One Hypothesis-generated chart (forest of 1-8 states, initial transitions, reactions "
           "handle / transition / decline / counter-guard, states with and without entry, exit and "
-          "init callbacks) is built five ways out of uniquely named logging callbacks: hand-written "
+          "init callbacks) is built five ways out of uniquely named logging callbacks (plain "
+          "functions, functools.partial objects or callable objects, each carrying a __name__): hand-written "
           "closures; state_method_template + register_signal_callback + register_parent on an "
           "HsmWithQueues (two charts are built from the same recipe before either is started); the "
           "to_code text of every template state exec'd in a namespace holding spy_on, signals, "
@@ -143,7 +162,9 @@ class C17(Prop):
               any(x is not None for x in spec["init"]) or any(spec["react"])):
         spec["entry"][case["start"]] = True
       return case
-    return chartgen.chart_case(max_events=8, max_states=8, max_sigs=3, spy=True).map(some_callback)
+    flav = st.sampled_from([["function"], ["function"], ["function", "partial", "object"], ["partial"], ["object"]])
+    return st.tuples(chartgen.chart_case(max_events=8, max_states=8, max_sigs=3, spy=True), flav).map(
+      lambda t: some_callback(dict(t[0], spec=dict(t[0]["spec"], flavours=t[1]))))
 
   def transcript_direct(self, case, chart, build):
     from miros.event import Event, signals
@@ -250,7 +271,7 @@ class C17(Prop):
     def factory():
       s = detsched.Scheduler(schedule=[], step_limit=400000, trace_files=[files["activeobject"]])
       try:
-        out = s.run(body)
+        out = detsched.guarded_run(s, body)
       except (detsched.Deadlock, detsched.StepLimit) as e:
         return [("no quiescence", str(e))]
       if s.thread_errors:
